@@ -87,9 +87,12 @@ def exprs(ids, depth, tier):
     out = [L[1], L[3], ("leaf", subs[0], "str"), ("leaf", subs[2], "list"), ("leaf", subs[1], "series")]
     if depth >= 1:
         out += [("add", L[1], L[2]), ("sub", L[2], L[4]), ("lmul", L[3]), ("rmul", L[2]), ("sub", L[0], L[0])]
+        # both operands over the SAME stations, listed in different orders (alignment is by station id, not by position)
+        out += [("add", L[1], ("leaf", subs[1][::-1])), ("sub", ("leaf", subs[3][1:] + subs[3][:1]), L[3])]
     if depth >= 2:
         out += [("add", L[0], ("lmul", L[4])), ("sub", ("lmul", L[1]), L[2]), ("sub", L[3], ("rmul", L[2])), ("add", ("rmul", L[4]), L[0]),
-                ("lmul", ("sub", L[1], L[4])), ("add", ("add", L[0], L[4]), L[2]), ("sub", ("leaf", subs[0], "str"), ("lmul", ("leaf", subs[2], "list")))]
+                ("lmul", ("sub", L[1], L[4])), ("add", ("add", L[0], L[4]), L[2]), ("sub", ("leaf", subs[0], "str"), ("lmul", ("leaf", subs[2], "list"))),
+                ("add", ("lmul", L[3]), ("leaf", subs[3][::-1]))]
     if tier == "thorough" and depth >= 2:
         out += [("sub", ("sub", L[3], L[1]), ("lmul", L[2])), ("lmul", ("lmul", L[1])), ("add", ("lmul", L[0]), ("rmul", L[4])), ("rmul", ("add", L[1], L[2]))]
     return out
